@@ -170,7 +170,7 @@ theorem nextSend_mono {s s' : ChainState} (hi : Inv s) (ht : Tr s s') {id : Id} 
     (hn : s.nextSend.get id = some n)
     (hid : (∃ p, s.chan.get (p, id) ≠ none) ∨ s.cpV2.get id ≠ none) :
     s'.nextSend.get id = some n ∨ s'.nextSend.get id = some (n + 1) := by
-  rcases ht.nextSend id n hn with h | h | h | ⟨hcp, hcr⟩
+  rcases ht.nextSend id n hn with h | ⟨h, _⟩ | h | ⟨hcp, hcr⟩
   · exact .inl h
   · exact .inr h
   · -- the id of a brand-new channel: impossible for an id already in use
